@@ -53,13 +53,13 @@ Proof.
   destruct (nth_error (rthr rs) i) as [p|]; [|reflexivity].
   destruct p as [[|m ms]|ms| | | | | |b| | | | | | ]; unfold rkick, kick;
   change (status_ (abs_st rs)) with (rstatus rs);
-  try (destruct (rstatus rs); cbn [status_eqb]; split; [reflexivity|exact Hwf]);
+  try (destruct (rstatus rs); cbn [status_eqb]; (split; [reflexivity|exact Hwf]));
   try (split; [reflexivity|exact Hwf]); try reflexivity.
   - (* Push *)
     destruct (push_abs rdflt (rq rs) m Hwf) as [Ha Hw]. split; [|exact Hw].
     unfold abs_st, rupd, upd; cbn. rewrite Ha. reflexivity.
   - (* PopN *)
-    pose proof (abs_length rdflt (rq rs)) as Hal. cbn [q].
+    pose proof (abs_length rdflt (rq rs)) as Hal. change (q (abs_st rs)) with (rabs (rq rs)).
     destruct (decide (Ring.len (rq rs) = 0)) as [E|E].
     + rewrite popN_empty by exact E.
       assert (Ha : rabs (rq rs) = []) by (apply nil_length_inv; lia).
@@ -72,8 +72,239 @@ Proof.
       split; [|exact H3]. unfold abs_st, rupd, upd; cbn [rstatus rq rthr rdelivered rdropped rpushed status_ q thr delivered dropped pushed].
       rewrite H2. reflexivity.
   - (* Len *)
-    pose proof (abs_length rdflt (rq rs)) as Hal. cbn [q].
+    pose proof (abs_length rdflt (rq rs)) as Hal. change (q (abs_st rs)) with (rabs (rq rs)).
     destruct (rabs (rq rs)) as [|a l0] eqn:Ea; cbn [length] in Hal; rewrite <- Hal.
     + split; [reflexivity|exact Hwf].
     + split; [|exact Hwf]. unfold abs_st, rsame, rupd, same, upd; cbn. rewrite Ea. reflexivity.
 Qed.
+
+(** * Lock-step simulation, both directions, same thread, same label *)
+
+Theorem sim_step_forward c rs s i rs' l :
+  1 <= bound c -> sim rs s -> rstep c rs i = Some (rs', l) ->
+  exists s', step c s i = Some (s', l) /\ sim rs' s'.
+Proof.
+  intros Hb Hs Hr. apply sim_abs in Hs. destruct Hs as [Hwf ->].
+  pose proof (rstep_abs c rs i Hb Hwf) as H. rewrite Hr in H. destruct H as [H1 H2].
+  exists (abs_st rs'). split; [exact H1|]. apply sim_abs. split; [exact H2|reflexivity].
+Qed.
+
+Theorem sim_step_backward c rs s i s' l :
+  1 <= bound c -> sim rs s -> step c s i = Some (s', l) ->
+  exists rs', rstep c rs i = Some (rs', l) /\ sim rs' s'.
+Proof.
+  intros Hb Hs Hr. apply sim_abs in Hs. destruct Hs as [Hwf ->].
+  pose proof (rstep_abs c rs i Hb Hwf) as H.
+  destruct (rstep c rs i) as [[rs' l']|].
+  - destruct H as [H1 H2]. rewrite H1 in Hr. injection Hr as <- <-.
+    exists rs'. split; [reflexivity|]. apply sim_abs. split; [exact H2|reflexivity].
+  - congruence.
+Qed.
+
+Theorem sim_step_none c rs s i :
+  1 <= bound c -> sim rs s -> (rstep c rs i = None <-> step c s i = None).
+Proof.
+  intros Hb Hs. apply sim_abs in Hs. destruct Hs as [Hwf ->].
+  pose proof (rstep_abs c rs i Hb Hwf) as H.
+  destruct (rstep c rs i) as [[rs' l']|].
+  - destruct H as [H1 _]. rewrite H1. split; discriminate.
+  - rewrite H. split; reflexivity.
+Qed.
+
+Lemma sim_init size clients : 1 <= size -> sim (rinit size clients) (init clients).
+Proof. intros H. apply sim_abs. split; [apply wf_new; exact H|reflexivity]. Qed.
+
+Lemma sim_init_started size clients : 1 <= size -> sim (rinit_started size clients) (init_started clients).
+Proof. intros H. apply sim_abs. split; [apply wf_new; exact H|reflexivity]. Qed.
+
+Theorem rreach_sim c rs0 s0 rs :
+  1 <= bound c -> sim rs0 s0 -> rreach c rs0 rs -> exists s, reach c s0 s /\ sim rs s.
+Proof.
+  intros Hb H0 Hr. induction Hr as [|rs i rs' l Hr IH Hstep].
+  - exists s0. split; [apply reach_refl|exact H0].
+  - destruct IH as (s & Hs & Hsim).
+    destruct (sim_step_forward c rs s i rs' l Hb Hsim Hstep) as (s' & Hs' & Hsim').
+    exists s'. split; [exact (reach_step c s0 _ _ _ _ Hs Hs')|exact Hsim'].
+Qed.
+
+Theorem reach_rsim c rs0 s0 s :
+  1 <= bound c -> sim rs0 s0 -> reach c s0 s -> exists rs, rreach c rs0 rs /\ sim rs s.
+Proof.
+  intros Hb H0 Hr. induction Hr as [|s i s' l Hr IH Hstep].
+  - exists rs0. split; [apply rreach_refl|exact H0].
+  - destruct IH as (rs & Hs & Hsim).
+    destruct (sim_step_backward c rs s i s' l Hb Hsim Hstep) as (rs' & Hs' & Hsim').
+    exists rs'. split; [exact (rreach_step c rs0 _ _ _ _ Hs Hs')|exact Hsim'].
+Qed.
+
+(* whole schedules: the two systems log the same labels (batch contents and
+   Len results included) and end in related states, or both get stuck *)
+Theorem rrun_sched_sim c sched : forall rs s,
+  1 <= bound c -> sim rs s ->
+  match rrun_sched c rs sched with
+  | Some (rs', ls) => exists s', run_sched c s sched = Some (s', ls) /\ sim rs' s'
+  | None => run_sched c s sched = None
+  end.
+Proof.
+  induction sched as [|i r IH]; intros rs s Hb Hsim; cbn [rrun_sched run_sched].
+  - exists s. split; [reflexivity|exact Hsim].
+  - destruct (rstep c rs i) as [[rs1 l]|] eqn:E.
+    + destruct (sim_step_forward c rs s i rs1 l Hb Hsim E) as (s1 & Hs1 & Hsim1). rewrite Hs1.
+      specialize (IH rs1 s1 Hb Hsim1). destruct (rrun_sched c rs1 r) as [[rs2 ls]|].
+      * destruct IH as (s2 & Hs2 & Hsim2). rewrite Hs2. exists s2. split; [reflexivity|exact Hsim2].
+      * rewrite IH. reflexivity.
+    + apply (sim_step_none c rs s i Hb Hsim) in E. rewrite E. reflexivity.
+Qed.
+
+(** * Initial states: any capacity >= 1 *)
+
+Definition rvalid_start (clients : list pc) (rs0 : rst) : Prop :=
+  exists size, 1 <= size /\ forallb client_ok clients = true /\
+    ((rs0 = rinit size clients /\ cnt is_starter clients <= 1) \/
+     (rs0 = rinit_started size clients /\ cnt is_starter clients = 0)).
+
+Definition rstarted_start (clients : list pc) (rs0 : rst) : Prop :=
+  exists size, 1 <= size /\ forallb client_ok clients = true /\
+    ((rs0 = rinit size clients /\ cnt is_starter clients = 1) \/
+     (rs0 = rinit_started size clients /\ cnt is_starter clients = 0)).
+
+Lemma rvalid_sim clients rs0 : rvalid_start clients rs0 -> exists s0, valid_start clients s0 /\ sim rs0 s0.
+Proof.
+  intros (size & Hs & Hok & [[-> Hc]|[-> Hc]]).
+  - exists (init clients). split; [split; [exact Hok|left; auto]|apply sim_init; exact Hs].
+  - exists (init_started clients). split; [split; [exact Hok|right; auto]|apply sim_init_started; exact Hs].
+Qed.
+
+Lemma rstarted_sim clients rs0 : rstarted_start clients rs0 -> exists s0, started_start clients s0 /\ sim rs0 s0.
+Proof.
+  intros (size & Hs & Hok & [[-> Hc]|[-> Hc]]).
+  - exists (init clients). split; [split; [exact Hok|left; auto]|apply sim_init; exact Hs].
+  - exists (init_started clients). split; [split; [exact Hok|right; auto]|apply sim_init_started; exact Hs].
+Qed.
+
+Lemma rstarted_rvalid clients rs0 : rstarted_start clients rs0 -> rvalid_start clients rs0.
+Proof.
+  intros (size & Hs & Hok & H). exists size. split; [exact Hs|]. split; [exact Hok|].
+  destruct H as [[-> Hc]|[-> Hc]]; [left|right]; split; try reflexivity; lia.
+Qed.
+
+(** * The theorems of the list system, over the ring *)
+
+(* the ring's representation invariant holds in every reachable inbox state:
+   by RingProofs.ring_no_oob no index of ringbuffer.go leaves its slice *)
+Theorem ring_wf_over_inbox c clients rs0 rs :
+  rvalid_start clients rs0 -> 1 <= bound c -> rreach c rs0 rs -> rwf (rq rs).
+Proof.
+  intros Hv Hb Hr. destruct (rvalid_sim _ _ Hv) as (s0 & _ & H0).
+  destruct (rreach_sim c rs0 s0 rs Hb H0 Hr) as (s & _ & Hsim). apply Hsim.
+Qed.
+
+Theorem conservation_over_ring c clients rs0 rs :
+  rvalid_start clients rs0 -> 1 <= bound c -> rreach c rs0 rs ->
+  rdelivered rs ++ rdropped rs ++ inflight (abs_st rs) ++ rabs (rq rs) = rpushed rs /\
+  Ring.len (rq rs) = length (rabs (rq rs)).
+Proof.
+  intros Hv Hb Hr. destruct (rvalid_sim _ _ Hv) as (s0 & Hv0 & H0).
+  destruct (rreach_sim c rs0 s0 rs Hb H0 Hr) as (s & Hs & Hsim).
+  apply sim_abs in Hsim. destruct Hsim as [_ ->].
+  split; [exact (conservation c _ _ _ Hv0 Hs)|]. symmetry. apply abs_length.
+Qed.
+
+Theorem receive_mutex_over_ring c clients rs0 rs :
+  rvalid_start clients rs0 -> 1 <= bound c -> rreach c rs0 rs -> cnt in_region (rthr rs) <= 1.
+Proof.
+  intros Hv Hb Hr. destruct (rvalid_sim _ _ Hv) as (s0 & Hv0 & H0).
+  destruct (rreach_sim c rs0 s0 rs Hb H0 Hr) as (s & Hs & Hsim).
+  apply sim_abs in Hsim. destruct Hsim as [_ ->]. exact (C02_receive_mutex_thm c _ _ _ Hv0 Hs).
+Qed.
+
+Theorem quiescent_is_drained_over_ring c clients rs0 rs :
+  rstarted_start clients rs0 -> pills_in (program_msgs clients) = false -> 1 <= bound c ->
+  rreach c rs0 rs -> rquiescent rs = true ->
+  rstatus rs = Idle /\ Ring.len (rq rs) = 0 /\ rdelivered rs = rpushed rs /\
+  length (rpushed rs) = length (program_msgs clients).
+Proof.
+  intros Hv HP Hb Hr Hq. destruct (rstarted_sim _ _ Hv) as (s0 & Hv0 & H0).
+  destruct (rreach_sim c rs0 s0 rs Hb H0 Hr) as (s & Hs & Hsim).
+  apply sim_abs in Hsim. destruct Hsim as [_ ->].
+  destruct (C03_quiescent_is_drained_thm c _ _ _ Hv0 HP Hs Hq) as (E1 & E2 & E3 & E4).
+  split; [exact E1|]. split; [|split; [exact E3|exact E4]].
+  rewrite <- (abs_length rdflt (rq rs)). cbn [q abs_st] in E2. rewrite E2. reflexivity.
+Qed.
+
+Theorem exactly_once_in_order_over_ring c clients rs0 rs :
+  rstarted_start clients rs0 -> pills_in (program_msgs clients) = false ->
+  List.NoDup (program_msgs clients) -> 1 <= bound c ->
+  rreach c rs0 rs -> rquiescent rs = true ->
+  rdelivered rs = rpushed rs /\
+  (forall ms, List.In (SPush ms) clients -> sub_of ms (rdelivered rs) = ms) /\
+  Permutation (rdelivered rs) (program_msgs clients).
+Proof.
+  intros Hv HP ND Hb Hr Hq. destruct (rstarted_sim _ _ Hv) as (s0 & Hv0 & H0).
+  destruct (rreach_sim c rs0 s0 rs Hb H0 Hr) as (s & Hs & Hsim).
+  apply sim_abs in Hsim. destruct Hsim as [_ ->].
+  destruct (C01_exactly_once_in_order_thm c _ _ _ Hv0 HP ND Hs Hq) as (E1 & E2 & _).
+  split; [exact E1|]. split; [exact E2|].
+  exact (C01_delivered_permutation_thm c _ _ _ Hv0 HP Hs Hq).
+Qed.
+
+(** * Termination over the ring *)
+
+Definition Rrstep (c : config) (rs0 : rst) : rst -> rst -> Prop :=
+  fun r2 r1 => exists i l, rstep c r1 i = Some (r2, l) /\ rreach c rs0 r1.
+
+Theorem terminates_over_ring c clients rs0 :
+  rvalid_start clients rs0 -> 1 <= bound c -> well_founded (Rrstep c rs0).
+Proof.
+  intros Hv Hb rs. destruct (rvalid_sim _ _ Hv) as (s0 & Hv0 & H0).
+  apply (Acc_incl _ (Rrstep c rs0) (fun x y => Rstep c s0 (abs_st x) (abs_st y))).
+  - intros r2 r1 (i & l & Hstep & Hr).
+    destruct (rreach_sim c rs0 s0 r1 Hb H0 Hr) as (s1 & Hs1 & Hsim1).
+    pose proof Hsim1 as Hsim1'. apply sim_abs in Hsim1'. destruct Hsim1' as [Hwf ->].
+    pose proof (rstep_abs c r1 i Hb Hwf) as H. rewrite Hstep in H. destruct H as [H _].
+    exists i, l. split; [exact H|exact Hs1].
+  - apply (Acc_inverse_image _ _ (Rstep c s0) abs_st). apply (C03_terminates_thm c clients s0 Hv0 Hb).
+Qed.
+
+Theorem no_deadlock_over_ring c clients rs0 rs :
+  rvalid_start clients rs0 -> 1 <= bound c -> rreach c rs0 rs ->
+  rquiescent rs = false -> exists i, rstep c rs i <> None.
+Proof.
+  intros Hv Hb Hr Hq. pose proof (ring_wf_over_inbox c _ _ _ Hv Hb Hr) as Hwf.
+  destruct (no_deadlock c (abs_st rs) Hq) as (i & _ & Hi). exists i. intros E.
+  apply Hi. apply (sim_step_none c rs (abs_st rs) i Hb); [apply sim_abs; split; [exact Hwf|reflexivity]|exact E].
+Qed.
+
+Inductive rinev (c : config) (P : rst -> Prop) : rst -> Prop :=
+| rinev_now s : P s -> rinev c P s
+| rinev_step s : (exists i, rstep c s i <> None) ->
+                 (forall i s' l, rstep c s i = Some (s', l) -> rinev c P s') -> rinev c P s.
+
+(* every maximal run of the ring-backed inbox is finite and ends drained *)
+Theorem every_run_drains_over_ring c clients rs0 rs :
+  rstarted_start clients rs0 -> pills_in (program_msgs clients) = false -> 1 <= bound c ->
+  rreach c rs0 rs ->
+  rinev c (fun t => rquiescent t = true /\ rstatus t = Idle /\ Ring.len (rq t) = 0 /\
+                    rdelivered t = rpushed t /\ length (rpushed t) = length (program_msgs clients)) rs.
+Proof.
+  intros Hs HP Hb. pose proof (rstarted_rvalid _ _ Hs) as Hv.
+  induction (terminates_over_ring c clients rs0 Hv Hb rs) as [rs _ IH]. intros Hr.
+  destruct (rquiescent rs) eqn:E.
+  - apply rinev_now. split; [exact E|]. exact (quiescent_is_drained_over_ring c _ _ _ Hs HP Hb Hr E).
+  - apply rinev_step.
+    + exact (no_deadlock_over_ring c _ _ _ Hv Hb Hr E).
+    + intros i rs' l Hstep. apply IH.
+      * exists i, l. split; [exact Hstep|exact Hr].
+      * exact (rreach_step c rs0 _ _ _ _ Hr Hstep).
+Qed.
+
+(** * Non-vacuity: a run that makes the ring of capacity 1 grow twice and wrap *)
+
+Example ex_ring_run :
+  exists rs ls,
+    rrun_sched {| bound := 2 |} (rinit 1 [SPush [1; 2; 3]; TCas]) [0; 0; 0; 0; 0; 0; 1; 1; 1; 2; 2; 2; 2; 2; 2; 2; 2; 2; 2; 2; 2]
+      = Some (rs, ls) /\
+    rquiescent rs = true /\ rstatus rs = Idle /\ rdelivered rs = [1; 2; 3] /\
+    Ring.modn (rq rs) = 4 /\ Ring.len (rq rs) = 0 /\
+    List.In (LPopN [1; 2] true) ls /\ List.In (LPopN [3] true) ls.
+Proof. eexists. eexists. split; [vm_compute; reflexivity|]. vm_compute. intuition. Qed.
